@@ -538,7 +538,10 @@ def run_case(cfg):
 
     Rg = surrogate(pk != "absent")
     Lr = objective(Rg)
-    g1r = torch.autograd.grad(Lr, used, create_graph=(order == 2), allow_unused=True)
+    if used and Lr.requires_grad:
+        g1r = torch.autograd.grad(Lr, used, create_graph=(order == 2), allow_unused=True)
+    else:       # only tensors that enter neither f nor log p were passed
+        g1r = [None for _ in used]
     g1ref = {}
     ui = 0
     for (lab, t, role) in inputs:
@@ -600,7 +603,7 @@ def run_case(cfg):
     if off2:
         off_sample = True
         viol.append(V("backward-evaluates-f-off-sample", {"count": len(off2)}, phase="backward2"))
-    if S_ref is not None:
+    if S_ref is not None and used:
         g2r = torch.autograd.grad(S_ref, used, allow_unused=True)
     else:
         g2r = [None for _ in used]
